@@ -27,7 +27,7 @@ def snap(x: float) -> Fraction:
     """the rational a float constant stands for (DESIGN 2.2, reals-for-floats idealisation):
     (i) a short decimal literal (<= 8 significant digits in its shortest round-trip repr, e.g. 1e-30, 0.001, 2.5)
     is read as that decimal; (ii) a float within 1e-15 relative of p/q with q <= 1e6 is read as p/q (1/3, 0.5/n);
-    (iii) anything else (sqrt(3), log(2 pi)) is the exact binary value of the float."""
+    (iii) anything else (sqrt(3), log(2 pi)) is read to 12 significant decimal digits."""
     ex = Fraction(x)
     r = repr(x)
     mant = r.lower().split("e")[0].replace("-", "").replace(".", "").lstrip("0")
@@ -36,7 +36,9 @@ def snap(x: float) -> Fraction:
     sn = ex.limit_denominator(10 ** 6)
     if ex == sn or (ex != 0 and abs((sn - ex) / ex) < Fraction(1, 10 ** 15)):
         return sn
-    return ex
+    # (iii) any other constant (log 2 pi, sqrt 3, 1/sqrt pi, ...) is read to 12 significant decimal digits, so that the
+    # same real constant reached through different float expressions (0.5*log(2 pi) vs log(sqrt(2 pi))) is one rational
+    return Fraction("%.11e" % x)
 
 
 def rv(x):
